@@ -384,7 +384,7 @@ func Run(c *core.Ctx) {
 				if g == "par" && kind == "withgroup" {
 					kind = "withres"
 				}
-				if rng.Intn(40) == 0 {
+				if rng.Intn(15) == 0 {
 					kind = "nomatch"
 				}
 				subs = append(subs, Sub{Kind: kind, Group: g})
@@ -418,7 +418,7 @@ func Run(c *core.Ctx) {
 	}
 	// (hot group) one group is fed faster than a worker drains it while other groups keep the remaining
 	// workers busy: long uninterrupted runs of one work item (hundreds of callbacks) next to waiting work
-	for i := 0; i < c.Pick(6, 60); i++ {
+	for i := 0; i < c.Pick(9, 60); i++ {
 		prog := Program{Workers: 2 + rng.Intn(2), InCh: []int{0, 2}[rng.Intn(2)], Producers: map[string][]Sub{}, Shutdown: false, Cycles: 1}
 		if i%2 == 1 {
 			prog.Workers = 2
@@ -456,6 +456,20 @@ func Run(c *core.Ctx) {
 				p3[k].Slow = true
 			}
 			prog.Producers["p3"] = p3
+		}
+		if i%3 != 0 {
+			// Shutdown arrives while the hot group still has a long backlog
+			prog.Shutdown = true
+			prog.SdDelayUs = 6000 + rng.Intn(20000)
+			// slow callbacks: the producers get far ahead of the worker, the backlog is long when Shutdown comes
+			for _, name := range []string{"p1", "p2"} {
+				ps := prog.Producers[name]
+				for k := range ps {
+					if ps[k].Group == hot && k%2 == 0 {
+						ps[k].Slow = true
+					}
+				}
+			}
 		}
 		add(Job{Mode: "stress", Seed: c.Seed*1000 + 500 + int64(i), Prog: prog, Src: "hot"})
 	}
